@@ -141,7 +141,7 @@ func Float64(name string) float64 { return math.Float64frombits(bitsIn(name)) }
 func Float32(name string) float32 { return math.Float32frombits(uint32(bitsIn(name))) }
 
 // IntFloat32 is a float32 holding an integer of magnitude <= 2^16 ("intfloat" mode).
-func IntFloat32(name string) float32 { return float32(intIn(name)) }
+func IntFloat32(name string) float32 { return math.Float32frombits(uint32(bitsIn(name))) }
 
 // Choose returns a value in [0,n); the engine explores every value.
 func Choose(name string, n int) int {
@@ -448,4 +448,19 @@ func Bound(k string, quick, thorough int) int {
 		}
 	}
 	return quick
+}
+
+// StrOrd is an arbitrary string that the code under test only compares (==, <): "" or a 16-digit hex ordinal.
+func StrOrd(name string) string {
+	r, ok := raw(name)
+	if !ok {
+		return ""
+	}
+	var s string
+	json.Unmarshal(r, &s)
+	k, _ := strconv.ParseUint(s, 10, 64)
+	if k == 0 {
+		return ""
+	}
+	return fmt.Sprintf("%016x", k)
 }
